@@ -13,7 +13,7 @@ ATTR = re.compile(r'#\[(modulus|generator|small_subgroup_base|small_subgroup_pow
 MONT = re.compile(r'#\[derive\([^)]*MontConfig[^)]*\)\]((?:\s*#\[[^\]]+\])+)\s*pub struct (\w+);')
 PTYPE = re.compile(r'pub type (\w+) = Fp\d+<\s*MontBackend<\s*(\w+),\s*(\d+)\s*>\s*>;')
 ETYPE = re.compile(r'pub type (\w+) = Fp(2|3|4|6|12)<(\w+)>;')
-IMPL = re.compile(r'^\s*impl(?:<[^>]*>)?\s+(?:\w+::)*(SWCurveConfig|TECurveConfig|GLVConfig|WBConfig|Bls12Config|BnConfig|BW6Config|MNT4Config|MNT6Config)\s+for\s+(\w+)', re.M)
+IMPL = re.compile(r'^\s*impl(?:<[^>]*>)?\s+(?:\w+::)*(SWCurveConfig|TECurveConfig|GLVConfig|WBConfig|MontCurveConfig|Elligator2Config|Bls12Config|BnConfig|BW6Config|MNT4Config|MNT6Config)\s+for\s+(\w+)', re.M)
 
 def resolve(srcdir, root_path, parts):
     """Public path of the module srcdir/parts...: a segment declared `pub mod x` stays, a private module
@@ -89,6 +89,10 @@ def rust_for(group, items, crate_root, flat):
             out.append('v.push(config::dump_curve_pts::<curve::TEDrv<%s>>(%s, seed));' % (p, label))
         elif kind == "GLVConfig":
             out.append('v.push(config::dump_glv_pts::<%s>(%s, seed));' % (p, label))
+        elif kind == "MontCurveConfig":
+            out.append('v.push(config::dump_mont::<%s>(%s));' % (p, label))
+        elif kind == "Elligator2Config":
+            out.append('v.push(config::dump_ell2::<%s>(%s));' % (p, label))
         elif kind == "WBConfig":
             out.append('v.push(config::dump_wb_pts::<%s>(%s, seed));' % (p, label))
             out.append('v.push(config::dump_curve_pts::<curve::SWDrv<<%s as ark_ec::hashing::curve_maps::wb::WBConfig>::IsogenousCurve>>("%s/%s:IsogenousCurve", seed));' % (p, group, name))
